@@ -5,6 +5,7 @@ from ..index import AnalysisError, dotted
 from ..astutil import text, short, endswith, calls_in, walk_no_nested, names_loaded, stmt_defs
 from .. import events as E
 from .. import types as T
+from ._h_E import Flow, arg, argn, nargs, return_cases
 
 EXPLANATION = (
   "Decides the structural pairing behind undo: every path through every DocActions method that "
@@ -49,9 +50,17 @@ def check(run, repo, tier):
 
 
 # ------------------------------------------------------------------------------------------
+def _flow_of(fn):
+  """One Flow per function wrapper (normal CFG)."""
+  fl = getattr(fn, "_flow_E", None)
+  if fl is None:
+    fl = fn._flow_E = Flow(fn)
+  return fl
+
+
 def undo_ctor_of(fn, call, names):
   """The action constructor recorded by an undo.append/insert call: (kind, ctor Call) or None.
-  Follows one level of local variable."""
+  Follows locals (every binding reaching the call; a None placeholder is ignored)."""
   args = list(call.args)
   if endswith(fn.name(call), "undo.insert") and len(args) == 2:
     args = args[1:]
@@ -61,16 +70,17 @@ def undo_ctor_of(fn, call, names):
   r = E.action_ctor(a, names)
   if r:
     return r
-  if isinstance(a, ast.Name):
-    kinds = []
-    for v in E.local_defs(fn.node, a.id):
-      r = E.action_ctor(v, names)
+  flow = _flow_of(fn)
+  kinds = []
+  for nid in flow.where(call)[:1]:
+    for l in flow.leaves(a, nid, split=False):
+      r = E.action_ctor(l.expr, names)
       if r:
         kinds.append(r)
-      elif not (isinstance(v, ast.Constant) and v.value is None):
+      elif not (isinstance(l.expr, ast.Constant) and l.expr.value is None):
         return None
-    if len(kinds) == 1:
-      return kinds[0]
+  if len(kinds) == 1:
+    return kinds[0]
   return None
 
 
@@ -178,36 +188,74 @@ def param_names(fn):
   return fn.fi.params()[1:]
 
 
+def _ctor_args(fn, kind, ctor):
+  """Arguments of an action constructor in field order (keywords bound by the action type's own
+  field names); None when they cannot be bound."""
+  fields = fn.world.action_types().get(kind)
+  if any(isinstance(a, ast.Starred) for a in ctor.args) or fields is None:
+    return None
+  out = list(ctor.args)
+  kw = {k.arg: k.value for k in ctor.keywords}
+  for f in fields[len(out):]:
+    if f not in kw:
+      break
+    out.append(kw[f])
+  return out
+
+
+def _is_param(fn, ctor, e, param):
+  """`e` (an argument of ctor) denotes the method's parameter `param`."""
+  flow = _flow_of(fn)
+  ws = flow.where(ctor)
+  return bool(ws) and flow.itext(e, ws[0], stop=(param,)) == param
+
+
+def _from_param(fn, ctor, e, param):
+  """`e` is the parameter or a local computed from it (e.g. the row ids filtered to the rows that
+  exist)."""
+  if _is_param(fn, ctor, e, param):
+    return True
+  flow = _flow_of(fn)
+  return isinstance(e, ast.Name) and \
+      flow.du.flows_from(lambda x: isinstance(x, ast.Name) and x.id == param, e)
+
+
 def first_arg_is_table_param(fn, ctor):
   ps = param_names(fn)
-  if not ctor.args:
+  if not ctor.args and not ctor.keywords:
     return False
-  a = ctor.args[0]
+  a = ctor.args[0] if ctor.args else None
   if isinstance(a, ast.Starred):
     # actions.X(*old_data): table id comes from fetch_table(<table param>)
-    if isinstance(a.value, ast.Name):
-      for v in E.local_defs(fn.node, a.value.id):
-        if isinstance(v, ast.Call) and v.args and isinstance(v.args[0], ast.Name) and \
-            v.args[0].id == ps[0]:
-          return True
-    return False
-  return isinstance(a, ast.Name) and a.id == ps[0]
+    flow = _flow_of(fn)
+    ws = flow.where(ctor)
+    if not ws:
+      return False
+    ls = flow.leaves(a.value, ws[0])
+    return bool(ls) and all(isinstance(l.expr, ast.Call) and nargs(l.expr) >= 1 and
+                            argn(fn.world, fn, l.expr, 0) is not None and
+                            flow.itext(argn(fn.world, fn, l.expr, 0), l.nid, stop=(ps[0],)) == ps[0]
+                            for l in ls)
+  args = _ctor_args(fn, dotted(ctor.func).split(".")[-1], ctor)
+  return bool(args) and _is_param(fn, ctor, args[0], ps[0])
 
 
 def check_ctor_args(fn, an, kind, ctor):
   ps = param_names(fn)
-  args = ctor.args
+  args = _ctor_args(fn, kind, ctor)
   if an == "RenameColumn":
-    return len(args) == 3 and [getattr(a, "id", None) for a in args] == [ps[0], ps[2], ps[1]]
+    return args is not None and len(args) == 3 and \
+        all(_is_param(fn, ctor, a, p_) for a, p_ in zip(args, [ps[0], ps[2], ps[1]]))
   if an == "RenameTable":
-    return len(args) == 2 and [getattr(a, "id", None) for a in args] == [ps[1], ps[0]]
+    return args is not None and len(args) == 2 and \
+        all(_is_param(fn, ctor, a, p_) for a, p_ in zip(args, [ps[1], ps[0]]))
   if not first_arg_is_table_param(fn, ctor):
     return False
   if an in ("AddColumn", "ModifyColumn", "RemoveColumn"):
-    return len(args) >= 2 and isinstance(args[1], ast.Name) and args[1].id == ps[1]
+    return args is not None and len(args) >= 2 and _is_param(fn, ctor, args[1], ps[1])
   if an in ("BulkAddRecord", "BulkRemoveRecord", "BulkUpdateRecord"):
     # row ids: the row_ids parameter (possibly rebound to a filtered version of itself)
-    return len(args) >= 2 and isinstance(args[1], ast.Name) and args[1].id == ps[1]
+    return args is not None and len(args) >= 2 and _from_param(fn, ctor, args[1], ps[1])
   return True
 
 
@@ -264,12 +312,13 @@ def r4_replay_order(run, w):
                 "forward; both decode with action_from_repr and go through the gateway", floor=2)
   for meth, want_rev in (("ApplyUndoActions", True), ("ApplyDocActions", False)):
     fn = w.fn("useractions.UserActions." + meth)
+    flow = _flow_of(fn)
     p = fn.fi.params()[1]
-    loops = [s for s in fn.node.body if isinstance(s, ast.For)]
     ok = False
     desc = "no loop over the parameter"
-    for lp in loops:
-      it = lp.iter
+    def order_of(it, nid):
+      """(reversed?, base expression) of an iterable, through local aliases."""
+      it, nid = flow.resolve(it, nid)
       rev = False
       base = it
       if isinstance(it, ast.Call) and dotted(it.func) == "reversed" and len(it.args) == 1:
@@ -279,21 +328,31 @@ def r4_replay_order(run, w):
           isinstance(it.slice.step, ast.UnaryOp) and isinstance(it.slice.step.op, ast.USub) and \
           isinstance(it.slice.step.operand, ast.Constant) and it.slice.step.operand.value == 1:
         rev, base = True, it.value
+      base, bn = flow.resolve(base, nid)
       while isinstance(base, ast.Call) and dotted(base.func) in ("list", "iter", "tuple") and \
           len(base.args) == 1:
-        base = base.args[0]
+        base, bn = flow.resolve(base.args[0], bn)
+      return rev, base
+    gateways = [(n, c) for (n, c, nm) in fn.calls()
+                if E.is_strict_gateway_call(c, nm, fn) and nargs(c) == 1]
+    n_ok = 0
+    for (n, c) in gateways:
+      a = flow.resolve(argn(w, fn, c, 0), n.id) if argn(w, fn, c, 0) is not None else (None, n.id)
+      if not (isinstance(a[0], ast.Call) and endswith(dotted(a[0].func), "action_from_repr") and
+              nargs(a[0]) == 1 and a[0].args):
+        continue
+      src = flow.loop_source(a[0].args[0], a[1])
+      if src is None:
+        continue
+      rev, base = order_of(src[0], src[1])
       if not (isinstance(base, ast.Name) and base.id == p):
         continue
-      var = lp.target.id if isinstance(lp.target, ast.Name) else None
-      body_ok = False
-      for c in calls_in(lp.body):
-        if E.is_strict_gateway_call(c, fn.name(c), fn) and len(c.args) == 1:
-          a = c.args[0]
-          if isinstance(a, ast.Call) and endswith(dotted(a.func), "action_from_repr") and \
-              len(a.args) == 1 and isinstance(a.args[0], ast.Name) and a.args[0].id == var:
-            body_ok = True
-      ok = body_ok and (rev == want_rev)
-      desc = "for %s in %s" % (text(lp.target), text(it))
+      desc = "for %s in %s" % (text(a[0].args[0]), text(src[0]))
+      # nothing inside the loop decides whether an action is replayed
+      if rev == want_rev and not flow.facts_inside(n.id, src[1]) and \
+          fn.cfg.dominated_by(fn.cfg.exit.id, {src[1]}):
+        n_ok += 1
+    ok = n_ok == 1 and len(gateways) == 1
     run.ob(R4, fn.qualname, desc, "%s order, decode, gateway" %
            ("reversed" if want_rev else "forward"), ok, fi=fn.fi)
 
@@ -309,27 +368,43 @@ def r5_rollback_trim(run, w):
         isinstance(s.targets[0], ast.Attribute):
       lists.append(s.targets[0].attr)
   gc = w.fn("engine.Engine._get_undo_checkpoint")
-  ret = [s for s in ast.walk(gc.node) if isinstance(s, ast.Return)]
-  if len(ret) != 1 or not isinstance(ret[0].value, ast.Tuple):
+  gflow = Flow(gc)
+  cases = return_cases(gflow)
+  if len(cases) != 1 or not isinstance(cases[0][1].expr, ast.Tuple):
     raise AnalysisError("_get_undo_checkpoint no longer returns one tuple")
   cp_attrs = []
-  for e in ret[0].value.elts:
-    if isinstance(e, ast.Call) and dotted(e.func) == "len" and isinstance(e.args[0], ast.Attribute):
+  for e in cases[0][1].expr.elts:
+    e = gflow.resolve(e, cases[0][1].nid)[0]
+    if isinstance(e, ast.Call) and dotted(e.func) == "len" and len(e.args) == 1 and \
+        isinstance(e.args[0], ast.Attribute):
       cp_attrs.append(e.args[0].attr)
     else:
       raise AnalysisError("_get_undo_checkpoint element is not len(<list attr>)")
   ut = w.fn("engine.Engine._undo_to_checkpoint")
   cfg = ut.cfg
-  # unpacking of the checkpoint parameter
+  flow = Flow(ut)
   cp_param = ut.fi.params()[1]
-  varmap = {}
-  for n in ast.walk(ut.node):
-    if isinstance(n, ast.Assign) and isinstance(n.value, ast.Name) and n.value.id == cp_param and \
-        isinstance(n.targets[0], ast.Tuple):
-      for v, a in zip(n.targets[0].elts, cp_attrs):
-        varmap[v.id] = a
-      if len(n.targets[0].elts) != len(cp_attrs):
-        raise AnalysisError("checkpoint tuple arity differs between get and undo")
+  def cp_field(e, nid):
+    """Which list's checkpointed length expression `e` denotes: a local unpacked from the
+    checkpoint parameter, or <checkpoint>[i]."""
+    if isinstance(e, ast.Name):
+      b = flow.binder(e.id, nid)
+      if b is not None and b.kind == "stmt" and isinstance(b.stmt, ast.Assign) and \
+          flow.itext(b.stmt.value, b.id, stop=(cp_param,)) == cp_param:
+        for t in b.stmt.targets:
+          if isinstance(t, (ast.Tuple, ast.List)):
+            if len(t.elts) != len(cp_attrs):
+              raise AnalysisError("checkpoint tuple arity differs between get and undo")
+            for v, a in zip(t.elts, cp_attrs):
+              if isinstance(v, ast.Name) and v.id == e.id:
+                return a
+    e2, n2 = flow.resolve(e, nid)
+    if isinstance(e2, ast.Subscript) and isinstance(e2.slice, ast.Constant) and \
+        isinstance(e2.slice.value, int) and \
+        flow.itext(e2.value, n2, stop=(cp_param,)) == cp_param and \
+        0 <= e2.slice.value < len(cp_attrs):
+      return cp_attrs[e2.slice.value]
+    return None
   dels = {}
   del_nodes = set()
   for n in cfg.nodes:
@@ -337,13 +412,13 @@ def r5_rollback_trim(run, w):
     if n.kind == "stmt" and isinstance(s, ast.Delete):
       for t in s.targets:
         if isinstance(t, ast.Subscript) and isinstance(t.slice, ast.Slice) and \
-            t.slice.upper is None and isinstance(t.slice.lower, ast.Name) and \
+            t.slice.upper is None and t.slice.lower is not None and t.slice.step is None and \
             endswith(ut.aliases.dotted(t.value) or "", *["out_actions." + a for a in lists]):
-          dels[t.value.attr] = t.slice.lower.id
+          dels[t.value.attr] = cp_field(t.slice.lower, n.id)
           del_nodes.add(n.id)
   for a in lists:
     want = "stored" if a == "direct" else a
-    ok = a in dels and varmap.get(dels[a]) == want
+    ok = a in dels and dels[a] == want
     run.ob(R5, ut.qualname, "del out_actions.%s[...]" % a,
            "list %s is truncated at the checkpointed length of %s" % (a, want), ok, fi=ut.fi)
   # the undo slice feeding ApplyUndoActions is read before any del
@@ -355,8 +430,8 @@ def r5_rollback_trim(run, w):
             endswith(ut.aliases.dotted(x.value) or "", "out_actions.undo") and \
             isinstance(x.slice, ast.Slice):
           slice_nodes.add(n.id)
-          len_ok = isinstance(x.slice.lower, ast.Name) and varmap.get(x.slice.lower.id) == "undo" \
-              and x.slice.upper is None
+          len_ok = x.slice.lower is not None and cp_field(x.slice.lower, n.id) == "undo" \
+              and x.slice.upper is None and x.slice.step is None
           run.ob(R5, ut.qualname, short(x), "undo slice starts at the checkpointed undo length",
                  len_ok, fi=ut.fi, node=x)
   apply_nodes = ut.nodes_calling(lambda c, nm, f: endswith(nm, "ApplyUndoActions"))
@@ -373,14 +448,14 @@ def r6_modify_reorder(run, w):
   fn = w.fn("useractions.UserActions.doModifyColumn")
   cfg = fn.xcfg
   pops = [(n, c) for (n, c, nm) in fn.calls(cfg) if endswith(nm, "out_actions.undo.pop")]
+  xflow = Flow(fn, cfg)
   if not pops:
     raise AnalysisError("doModifyColumn: undo.pop() not found (mechanism moved?)")
   for (n, c) in pops:
-    var = None
-    if isinstance(n.stmt, ast.Assign) and isinstance(n.stmt.targets[0], ast.Name):
-      var = n.stmt.targets[0].id
+    # re-appends of the very value popped here (through whatever local holds it)
     apps = {m.id for (m, c2, nm) in fn.calls(cfg) if endswith(nm, "out_actions.undo.append")
-            and len(c2.args) == 1 and isinstance(c2.args[0], ast.Name) and c2.args[0].id == var}
+            and len(c2.args) == 1 and
+            xflow.denotes(c2.args[0], m.id, lambda v, k: v is c)}
     # every path after the pop -- normal or exceptional -- re-appends the same value
     ok = bool(apps) and cfg.postdominated_by(n.id, apps, exits={cfg.exit.id, cfg.raise_exit.id},
                                              completed=True)
@@ -430,13 +505,17 @@ def r7_delta_direction(run, w):
   if idx_param is None:
     return
   ipos = ua_params.index(idx_param)
-  def idx_of(call):
-    if len(call.args) > ipos and isinstance(call.args[ipos], ast.Constant):
-      return call.args[ipos].value
+  flow = _flow_of(fn)
+  def bound(call):
+    """{param: expr} of a call of the local helper (positional or keyword)."""
+    if any(isinstance(a, ast.Starred) for a in call.args) or len(call.args) > len(ua_params):
+      return None
+    out = dict(zip(ua_params, call.args))
     for k in call.keywords:
-      if k.arg == idx_param and isinstance(k.value, ast.Constant):
-        return k.value.value
-    return None
+      if k.arg is None or k.arg not in ua_params or k.arg in out:
+        return None
+      out[k.arg] = k.value
+    return out
   n_st = n_un = n_front = 0
   cfg = fn.cfg
   for (n, c, nm) in fn.calls():
@@ -444,26 +523,38 @@ def r7_delta_direction(run, w):
               p_stored + ".insert", p_stored + ".extend", p_undo + ".extend"):
       args = list(c.args)
       front = nm.endswith(".insert")
+      pos_ok = True
       if front:
-        pos_ok = isinstance(args[0], ast.Constant) and args[0].value == 0
+        pos = flow.resolve(args[0], n.id)[0] if args else None
+        pos_ok = isinstance(pos, ast.Constant) and pos.value == 0 and \
+            not isinstance(pos.value, bool)
         args = args[1:]
-      inner_call = args[0] if args else None
-      if not (isinstance(inner_call, ast.Call) and dotted(inner_call.func) == ua.name):
+      ls = flow.leaves(args[0], n.id) if args else []
+      if not ls or not all(isinstance(l.expr, ast.Call) and dotted(l.expr.func) == ua.name
+                           for l in ls):
         run.ob(R7, fn.qualname, short(c), "value written to the out list comes from the helper",
                False, fi=fn.fi, node=c)
         continue
       want = 1 if nm.startswith(p_stored + ".") else 0
-      ok = idx_of(inner_call) == want
+      ok = True
+      names_ok = True
+      for l in ls:
+        b_ = bound(l.expr)
+        if b_ is None:
+          ok = False
+          continue
+        idx = flow.resolve(b_[idx_param], l.nid)[0] if idx_param in b_ else None
+        ok = ok and isinstance(idx, ast.Constant) and idx.value == want and \
+            not isinstance(idx.value, bool)
+        if front:
+          # front restores use names obtained from original_name()
+          extra = [b_.get(p_) for p_ in ua_params[ipos + 1:]]
+          names_ok = names_ok and len(extra) == 2 and all(
+            e is not None and flow.denotes(e, l.nid, lambda v, k: isinstance(v, ast.Call) and
+                                           endswith(dotted(v.func), "original_name"))
+            for e in extra)
       if front:
         n_front += 1
-        # front restores use names obtained from original_name()
-        extra = inner_call.args[ipos + 1:]
-        names_ok = len(extra) == 2 and all(isinstance(a, ast.Name) for a in extra)
-        if names_ok:
-          for a in extra:
-            defs = E.local_defs(fn.node, a.id)
-            names_ok = names_ok and len(defs) == 1 and isinstance(defs[0], ast.Call) and \
-                endswith(dotted(defs[0].func), "original_name")
         ok = ok and pos_ok and names_ok and nm.startswith(p_undo + ".")
       elif nm.startswith(p_stored + "."):
         n_st += 1
